@@ -1353,13 +1353,127 @@ func (t *FnTrans) keepPrivateCells() func() {
 		}
 		ks = append(ks, kept{p.Comp, p.Ref, t.get(p.Comp)})
 	}
+	// objects allocated by this function whose address has not left it yet (not stored, passed, boxed, captured or
+	// returned on any path that reaches this call): no callee can reach them, their fields keep their values
+	type keptObj struct {
+		ref string
+		pre map[string]string
+	}
+	var objs []keptObj
+	if t.curInstr != nil && len(t.curLoops) == 0 {
+		for _, a := range t.unescapedAllocs(t.curInstr) {
+			v, ok := t.vals[a]
+			if !ok || v.S == "" {
+				continue
+			}
+			pre := map[string]string{}
+			for c := range t.compSort {
+				if strings.HasPrefix(c, "H.") {
+					pre[c] = t.get(c)
+				}
+			}
+			objs = append(objs, keptObj{v.S, pre})
+		}
+	}
 	return func() {
 		for _, k := range ks {
 			if now := t.get(k.comp); now != k.pre {
 				t.set(k.comp, app("store", now, k.ref, app("select", k.pre, k.ref)))
 			}
 		}
+		for _, o := range objs {
+			var cs []string
+			for c := range o.pre {
+				cs = append(cs, c)
+			}
+			sort.Strings(cs)
+			for _, c := range cs {
+				if now := t.get(c); now != o.pre[c] {
+					t.set(c, app("store", now, o.ref, app("select", o.pre[c], o.ref)))
+				}
+			}
+		}
 	}
+}
+
+// unescapedAllocs: the struct allocations of this function that have been executed when `at` runs and whose address
+// cannot have left the function by then: every instruction that lets the address escape is strictly dominated by `at`.
+func (t *FnTrans) unescapedAllocs(at ssa.Instruction) []*ssa.Alloc {
+	var out []*ssa.Alloc
+	after := func(e ssa.Instruction) bool { // `at` strictly precedes e on every path
+		if e == at {
+			return false
+		}
+		if e.Block() == at.Block() {
+			for _, in := range at.Block().Instrs {
+				if in == at {
+					return true
+				}
+				if in == e {
+					return false
+				}
+			}
+			return false
+		}
+		return at.Block().Dominates(e.Block())
+	}
+	before := func(a *ssa.Alloc) bool { // a has run when `at` runs
+		if a.Block() == at.Block() {
+			for _, in := range at.Block().Instrs {
+				if in == ssa.Instruction(a) {
+					return true
+				}
+				if in == at {
+					return false
+				}
+			}
+			return false
+		}
+		return a.Block().Dominates(at.Block())
+	}
+	var ok func(v ssa.Value, depth int) bool
+	ok = func(v ssa.Value, depth int) bool {
+		if depth > 4 || v.Referrers() == nil {
+			return false
+		}
+		for _, r := range *v.Referrers() {
+			switch x := r.(type) {
+			case *ssa.FieldAddr:
+				if !ok(x, depth+1) {
+					return false
+				}
+			case *ssa.Store:
+				if x.Val == v && !after(x) {
+					return false
+				}
+			case *ssa.UnOp:
+				if x.Op != token.MUL && !after(x) {
+					return false
+				}
+			case *ssa.DebugRef:
+			default:
+				if !after(r) {
+					return false
+				}
+			}
+		}
+		return true
+	}
+	for _, b := range t.fn.Blocks {
+		for _, in := range b.Instrs {
+			a, isA := in.(*ssa.Alloc)
+			if !isA || !a.Heap || !before(a) {
+				continue
+			}
+			if _, isS := t.resolve(a.Type().(*types.Pointer).Elem()).Underlying().(*types.Struct); !isS {
+				continue
+			}
+			if ok(a, 0) {
+				out = append(out, a)
+			}
+		}
+	}
+	return out
 }
 
 // initLocks: mutexes embedded in a freshly allocated struct are unlocked.
